@@ -146,9 +146,16 @@ def gen_bn(rng, n, big=False, uai_big_cards=False, forced=None):
             cols.append(gen_column(rng, cards[v], md))
         # values2d[c][j]
         values[v] = [[cols[j][c] for j in range(P)] for c in range(cards[v])]
+    # node insertion order, edge insertion order, CPD list order and each CPD's evidence order (= parents[v]) are
+    # shuffled INDEPENDENTLY: the graph's parent order (edge insertion) need not be the CPD's evidence order
     node_order = list(names)
     rng.shuffle(node_order)
-    return {"names": names, "node_order": node_order, "states": states, "parents": parents, "values": values, "mode": mode}
+    edge_order = [[p, v] for v in names for p in parents[v]]
+    rng.shuffle(edge_order)
+    cpd_order = list(names)
+    rng.shuffle(cpd_order)
+    return {"names": names, "node_order": node_order, "edge_order": edge_order, "cpd_order": cpd_order,
+            "nodes_first": rng.random() < 0.7, "states": states, "parents": parents, "values": values, "mode": mode}
 
 
 def _prod(it):
@@ -207,6 +214,12 @@ REGRESSION_STRUCTURES = [
 ]
 
 
+SL_EXTS = ["bif", "xmlbif", "uai", "net", "txt", "", "XMLBIF"]
+SL_FTS = [None, "bif", "xmlbif", "uai", "net"]
+FMT_CODE = {"bif": 0, "uai": 1, "xmlbif": 2, "net": 3}
+CODE_FMT = {0: "bif", 1: "uai", 2: "xmlbif"}
+
+
 def cases(tier, seed):
     rng = random.Random(seed)
     out = []
@@ -228,19 +241,27 @@ def cases(tier, seed):
     for i in range(6 if tier == "quick" else 40):
         out.append({"kind": "bn", "bn": gen_bn(rng, 4, big=True), "njobs": 1, "saveload": i % 2 == 0,
                     "formats": ["xmlbif", "uai", "net"] + (["bif"] if i % 3 == 0 else [])})
+    # save/load dispatch: every (extension, filetype) pair, consistent or contradictory
+    for rep in range(1 if tier == "quick" else 5):
+        for ext in SL_EXTS:
+            for ft in SL_FTS:
+                out.append({"kind": "sl", "bn": gen_bn(rng, rng.choice([2, 3, 4])), "ext": ext, "ft": ft})
     for i in range(60 if tier == "quick" else 800):
         out.append({"kind": "mn", "mn": gen_mn(rng, isolated=(i % 10 == 9))})
     return out
 
 
 def shrink(case):
-    if case["kind"] != "bn":
+    if case["kind"] not in ("bn", "sl"):
         return
     b = case["bn"]
     children = {p for v in b["names"] for p in b["parents"][v]}
     for v in b["names"]:
         if v not in children and len(b["names"]) > 1:
             nb = {"names": [x for x in b["names"] if x != v], "node_order": [x for x in b["node_order"] if x != v],
+                  "edge_order": [e for e in b.get("edge_order", []) if v not in e] or None,
+                  "cpd_order": [x for x in b.get("cpd_order", b["names"]) if x != v],
+                  "nodes_first": b.get("nodes_first", True),
                   "states": {x: s for x, s in b["states"].items() if x != v},
                   "parents": {x: s for x, s in b["parents"].items() if x != v},
                   "values": {x: s for x, s in b["values"].items() if x != v}, "mode": b["mode"]}
@@ -255,11 +276,12 @@ def build_bn(b):
     from pgmpy.models import BayesianNetwork
     from pgmpy.factors.discrete import TabularCPD
     m = BayesianNetwork()
-    m.add_nodes_from(b["node_order"])
-    for v in b["names"]:
-        for p in b["parents"][v]:
-            m.add_edge(p, v)
-    for v in b["names"]:
+    if b.get("nodes_first", True):
+        m.add_nodes_from(b["node_order"])
+    for p, v in b.get("edge_order") or [[p, v] for v in b["names"] for p in b["parents"][v]]:
+        m.add_edge(p, v)
+    m.add_nodes_from(b["node_order"])  # isolated nodes when the edges came first
+    for v in b.get("cpd_order") or b["names"]:
         ps = b["parents"][v]
         card = len(b["states"][v])
         arr = np.array(b["values"][v], dtype=float).reshape(card, -1)
@@ -523,7 +545,14 @@ def run_bn(case, drv):
         tags.append("name table/default+[0-9eE]")
     if any((b["parents"][v][-1] if b["parents"][v] else v).endswith("variable") for v in names):
         tags.append("probability header ends in *variable")
-    key = common.canon_key(["bn", b["names"], b["node_order"], b["states"], b["parents"], b["values"],
+    if any(len(b["parents"][v]) >= 2 and list(m.get_parents(v)) != list(b["parents"][v]) for v in names):
+        tags.append("graph parent order != CPD evidence order")
+    if [c.variable for c in m.get_cpds()] != list(m.nodes()):
+        tags.append("CPD list order != node order")
+    if list(m.nodes()) != sorted(m.nodes()):
+        tags.append("node order != sorted")
+    key = common.canon_key(["bn", b["names"], b["node_order"], b.get("edge_order"), b.get("cpd_order"),
+                            b.get("nodes_first"), b["states"], b["parents"], b["values"],
                             case["njobs"], case["saveload"], case.get("formats")])
     fmts = [("bif", BIFWriter, BIFReader), ("xmlbif", XMLBIFWriter, XMLBIFReader),
             ("uai", UAIWriter, UAIReader), ("net", NETWriter, NETReader)]
@@ -685,7 +714,97 @@ def run_mn(case, drv):
     return ok(nontrivial=True, key=key, tags=tags)
 
 
+def sniff(text):
+    if text.startswith("network "):
+        return 0
+    if text.startswith("BAYES") or text.startswith("MARKOV"):
+        return 1
+    if text.startswith("<?xml"):
+        return 2
+    return 9
+
+
+def run_sl(case, drv):
+    """BayesianNetwork.save(path, [filetype]) then BayesianNetwork.load(path, [filetype]) with IDENTICAL arguments,
+    for one (extension, filetype) pair: which format is written / parsed must be what the dispatch model says
+    (a recognised extension overrides the filetype in both), the file must be the writer class's text, and the
+    loaded model must equal the original by named assignment (or nothing is written and None is returned)."""
+    from pgmpy.models import BayesianNetwork
+    from pgmpy.readwrite import BIFWriter, XMLBIFWriter, UAIWriter
+    b = case["bn"]
+    names = b["names"]
+    ext, ft = case["ext"], case["ft"]
+    m = build_bn(b)
+    if m.check_model() is not True:
+        return bad("harness:invalid-model", {})
+    key = common.canon_key(["sl", b["names"], b["node_order"], b.get("edge_order"), b.get("cpd_order"), b["states"],
+                            b["parents"], b["values"], ext, ft])
+    ecode = FMT_CODE.get(ext.lower(), 4)
+    fcode = FMT_CODE.get(ft, 4) if ft is not None else 0
+    msave, mload = drv.call("c09_dispatch", [ecode, fcode])
+    exp_save = msave[0] if msave else None
+    exp_load = mload[0] if mload else None
+    consistent = ft is None or ecode > 2 or ecode == fcode
+    tags = ["save/load ext=%s filetype=%s" % (ext or "<none>", ft or "<default>"),
+            "save/load resolves to " + CODE_FMT.get(exp_save, "nothing"),
+            "save/load " + ("consistent pair" if consistent else "extension contradicts filetype")]
+    path = os.path.join(TMP, "sl_%d_%s%s" % (os.getpid(), key, ("." + ext) if ext else ""))
+    kw = {} if ft is None else {"filetype": ft}
+    detail = {"ext": ext, "filetype": ft, "model_save": exp_save, "model_load": exp_load}
+    try:
+        if os.path.exists(path):
+            os.remove(path)
+        m.save(path, **kw)
+        written = None
+        if os.path.exists(path):
+            with open(path) as fh:
+                ftext = fh.read()
+            written = sniff(ftext)
+        if written != exp_save:
+            return bad("impl!=model:save-format", dict(detail, written=written), key=key, tags=tags)
+        if written is not None:
+            W = {0: BIFWriter, 1: UAIWriter, 2: XMLBIFWriter}[written]
+            if ftext != str(W(m)):
+                return bad("impl!=spec:save-text-differs-from-writer", detail, key=key, tags=tags)
+        m3 = BayesianNetwork.load(path, n_jobs=1, **kw)
+    except Exception as e:
+        return bad("saveload-raises:%s" % type(e).__name__, dict(detail, error=str(e)[:300]), key=key, tags=tags)
+    finally:
+        if os.path.exists(path):
+            os.remove(path)
+    if exp_load is None:
+        if m3 is not None:
+            return bad("impl!=model:load-format", dict(detail, loaded=str(type(m3))), key=key, tags=tags)
+        return ok(nontrivial=True, key=key, tags=tags)
+    if m3 is None:
+        return bad("impl!=model:load-format", dict(detail, loaded=None), key=key, tags=tags)
+    ref = named(m)
+    if exp_load == 1:
+        svars = sorted(names)
+        var_id = {v: i for i, v in enumerate(svars)}
+        state_id = {st: i for i, st in enumerate(sorted({x for v in names for x in b["states"][v]}))}
+        req, _ = model_request(b, m, var_id, state_id)
+        num = {svars[v]: i for v, i in drv.call("c09_uai", req)[2]}
+        vmap = {"var_%d" % i: v for v, i in num.items()}
+        smap = {v: {i: st for i, st in enumerate(b["states"][v])} for v in names}
+        got = named(m3, vmap, smap)
+        nodes3 = sorted(vmap.get(x, x) for x in m3.nodes())
+        edges3 = sorted((vmap.get(a, a), vmap.get(c, c)) for a, c in m3.edges())
+    else:
+        got = named(m3)
+        nodes3 = sorted(m3.nodes())
+        edges3 = sorted(m3.edges())
+    if nodes3 != sorted(names) or edges3 != sorted(m.edges()):
+        return bad("impl!=spec:saveload-graph", dict(detail, nodes=nodes3, edges=edges3), key=key, tags=tags)
+    dd = compare_named("bif", ref, got)
+    if dd:
+        return bad("impl!=spec:saveload-named-assignment", dict(detail, **dd), key=key, tags=tags)
+    return ok(nontrivial=True, key=key, tags=tags)
+
+
 def run_case(case, drv):
     if case["kind"] == "bn":
         return run_bn(case, drv)
+    if case["kind"] == "sl":
+        return run_sl(case, drv)
     return run_mn(case, drv)
